@@ -34,8 +34,25 @@ def _h_integrand_call(em, n, args, dst):
 _ACC_OPTS = dict(operator_calls={('vpinst_Fn', 'operator()'): _h_integrand_call, ('vpinst_Map', 'operator()'): _h_map_call,
                                   ('discrete_distribution', 'operator()'): _h_selector_call})
 
-# obligations named for property X also count for the properties whose statement is composed of X (see vp/check.py)
-COMPOSED_OF = {'C03': ('C05', 'C19'), 'C04': ('C16', 'C10', 'C20'), 'C01': ('C02', 'C07', 'C17'), 'C07': ('C17', 'C01', 'C19'), 'C20': ('C12',), 'C12': ('C13',), 'C17': ('C07', 'C01', 'C09'), 'C19': ('C05',)}
+# obligations named for property X also count for the properties whose statement is composed of X (see vp/check.py);
+# an entry is a property id (all its obligations) or one full obligation name
+def composed(pid, name):
+    pre = name.split('.')[0]
+    return pre == pid or any(e == pre or e == name for e in COMPOSED_OF.get(pid, ()))
+
+
+COMPOSED_OF = {
+    'C03': ('C05', 'C19'),                                   # lossless text + next state is a function of stored data
+    'C04': ('C16', 'C10', 'C20.mpi_root_mode', 'C20.mpi_silent_nonroot'),
+    # C01: the weight formulas (C07.weight/index/left, C17.lazy_memo_value = the memoised weight IS jacobian/sum), the accumulated value is f*w,
+    # the channel is drawn with the cumulative-sum distribution
+    'C01': ('C02.ret_fw', 'C02.acc_once', 'C02.ret_nonzero_weight', 'C07', 'C17.lazy_memo_value', 'C17.lazy_memo', 'C09'),
+    'C07': ('C17.unit', 'C01.vegas_point', 'C19'),           # point inside the reported bin; the next grid is refine(last result) also in MPI
+    'C20': ('C12.target', 'C12.notarget', 'C12.combine_all'),  # the decision that must be mode-independent
+    'C12': ('C13',),                                         # the stop decision is taken on the combined result
+    'C17': ('C07', 'C01', 'C09', 'C02.weight_once', 'C02.weight_lazy', 'C02.once'),
+    'C19': ('C05',),                                         # resumed-from-text runs
+}
 
 
 def X_qtype(n):
